@@ -30,9 +30,15 @@ type Sys struct {
 	Extra func(impl drv.Driver, m *model.Model, trans drv.Op) []Extra
 	// Expand, if set, decides whether the successor of a conforming transition is explored.
 	Expand func(m *model.Model, depth int) bool
+	// Check, if set, replaces the reference-model comparison of every response (used by the
+	// v1/v2 product, where the oracle is agreement between the two clients).
+	Check func(op drv.Op, got, want drv.Resp) *drv.Diff
 	// OnNewState, if set, runs on every newly discovered state (after de-duplication) with the
 	// live implementation; Rebuild returns a fresh implementation replayed to the same state.
 	OnNewState func(c StateCtx) []Extra
+	// NoExpand, if set, keeps a conforming transition from being expanded (it is still compared
+	// and observed).
+	NoExpand func(op drv.Op, got drv.Resp) bool
 	// Skip, if set, lets a check declare a transition outside its property (counted, not
 	// compared, not expanded) after seeing the implementation's response.
 	Skip      func(op drv.Op, got drv.Resp) bool
@@ -100,6 +106,13 @@ type Replay struct {
 	Want    string   `json:"want"`
 }
 
+func (s *Sys) compare(op drv.Op, got, want drv.Resp) *drv.Diff {
+	if s.Check != nil {
+		return s.Check(op, got, want)
+	}
+	return drv.Compare(op, got, want)
+}
+
 // DefaultSig builds the default signature.
 func DefaultSig(prop string) func(trans drv.Op, d *drv.Diff, observing *drv.Op) string {
 	return func(trans drv.Op, d *drv.Diff, observing *drv.Op) string {
@@ -130,7 +143,7 @@ func Explore(s Sys, run *ev.Run) Stats {
 		for _, op := range s.Init {
 			g := impl.Do(op)
 			w := root.m.Do(op)
-			if d := drv.Compare(op, g, w); d != nil {
+			if d := s.compare(op, g, w); d != nil {
 				sig := s.SigOf(op, d, nil) + "@" + base(impl.Name())
 				run.Report("init|"+sig, d.String(), Replay{Driver: impl.Name(), System: s.Name, Init: s.Init, Op: op, Got: g.Short(), Want: w.Short()})
 				return st
@@ -198,7 +211,7 @@ func Explore(s Sys, run *ev.Run) Stats {
 							atomic.AddInt64(&st.Skipped, 1)
 							continue
 						}
-						if d := drv.Compare(op, got, want); d != nil {
+						if d := s.compare(op, got, want); d != nil {
 							sig := s.SigOf(op, d, nil) + "@" + base(impl.Name())
 							if run.Report(sig, d.String(), Replay{Driver: impl.Name(), System: s.Name, Init: s.Init, History: hist, Op: op, Got: got.Short(), Want: want.Short()}) {
 								atomic.AddInt64(&st.SuppressedTr, 1)
@@ -214,7 +227,7 @@ func Explore(s Sys, run *ev.Run) Stats {
 							g := impl.Do(ro)
 							w := m.Do(ro)
 							atomic.AddInt64(&st.ObserveOps, 1)
-							if d := drv.Compare(ro, g, w); d != nil {
+							if d := s.compare(ro, g, w); d != nil {
 								sig := s.SigOf(op, d, &ro) + "@" + base(impl.Name())
 								if run.Report(sig, d.String(), Replay{Driver: impl.Name(), System: s.Name, Init: s.Init, History: hist, Op: op, Observe: &ro, Got: g.Short(), Want: w.Short()}) {
 									atomic.AddInt64(&st.SuppressedTr, 1)
@@ -238,6 +251,9 @@ func Explore(s Sys, run *ev.Run) Stats {
 							}
 						}
 						if s.Expand != nil && !s.Expand(m, depth+1) {
+							continue
+						}
+						if s.NoExpand != nil && s.NoExpand(op, got) {
 							continue
 						}
 						key := canon.Hash(impl.Raw()) + "|" + m.Canon()
